@@ -97,14 +97,14 @@ RULE = ("C13 generator: zeros / equal / one divides the other / common 2^k with 
         "spanning digits / co-prime / Fibonacci / all signs | non-trivial: both operands >= 2 in magnitude and distinct")
 
 # ---- in-Coq cross-check of the extraction -------------------------------------------------
-COQ_IMPORTS = "Base X86 AddSub PgrLoop Pow Gcd Extracted"
+COQ_IMPORTS = "Base X86 AddSub PgrLoop Pow Gcd Div Extracted"
 
 def coq_term(case, model):
     toks = case.split(" ")
     op, a = toks[0], toks[1:]
     if len(case) > 160 or len(model) > 200:
         return None
-    big = "spec_bmul spec_bdivrem addsub"
+    big = "spec_bmul (Div.udivrem Extracted.div) addsub"
     if op == "u.gcd":
         return "ugcd addsub pgr_gcd %s %s" % (coq_list(a[0]), coq_list(a[1])), coq_result(model)
     if op == "u.lcm":
@@ -112,9 +112,9 @@ def coq_term(case, model):
     if op == "u.gcd_lcm":
         return "ugcd_lcm %s pgr_gcd %s %s" % (big, coq_list(a[0]), coq_list(a[1])), coq_result(model)
     if op == "u.next_multiple_of":
-        return "unext_multiple_of spec_bdivrem addsub %s %s" % (coq_list(a[0]), coq_list(a[1])), coq_result(model)
+        return "unext_multiple_of (Div.udivrem Extracted.div) addsub %s %s" % (coq_list(a[0]), coq_list(a[1])), coq_result(model)
     if op == "u.prev_multiple_of":
-        return "uprev_multiple_of spec_bdivrem addsub %s %s" % (coq_list(a[0]), coq_list(a[1])), coq_result(model)
+        return "uprev_multiple_of (Div.udivrem Extracted.div) addsub %s %s" % (coq_list(a[0]), coq_list(a[1])), coq_result(model)
     if op == "i.gcd":
         return "igcd addsub pgr_gcd %s %s" % (coq_bigint(a[0]), coq_bigint(a[1])), coq_result(model)
     if op == "i.lcm":
@@ -122,9 +122,9 @@ def coq_term(case, model):
     if op == "i.extended_gcd":
         return "iextended_gcd %s %s %s" % (big, coq_bigint(a[0]), coq_bigint(a[1])), coq_result(model)
     if op == "i.next_multiple_of":
-        return "inext_multiple_of spec_bdivrem addsub %s %s" % (coq_bigint(a[0]), coq_bigint(a[1])), coq_result(model)
+        return "inext_multiple_of (Div.udivrem Extracted.div) addsub %s %s" % (coq_bigint(a[0]), coq_bigint(a[1])), coq_result(model)
     if op == "i.prev_multiple_of":
-        return "iprev_multiple_of spec_bdivrem addsub %s %s" % (coq_bigint(a[0]), coq_bigint(a[1])), coq_result(model)
+        return "iprev_multiple_of (Div.udivrem Extracted.div) addsub %s %s" % (coq_bigint(a[0]), coq_bigint(a[1])), coq_result(model)
     if op == "i.inc":
         return "iinc addsub %s" % coq_bigint(a[0]), coq_result(model)
     if op == "i.dec":
